@@ -23,22 +23,31 @@ struct MC {
   unsigned id;  // identifier
   int dim;
   SCol bd;      // in identifiers, coefficients reduced mod p, zero ones dropped
+  SCol in;      // the same entries as they are handed to the library: coefficient c + k p with k >= 0 (k = 0: in == bd)
 };
 
 // what the options of an instantiation offer
 struct Traits {
   int fl, idx;
   bool z2, ra, rr, rc, has_maxdim, vine;
+  bool pairings = true;  // has_column_pairings: get_current_barcode is offered
+  bool ranges = false;   // the adapter also instantiates insert_boundary for std::list / std::deque / std::set boundaries
 };
+
+enum { R_VECTOR = 0, R_LIST = 1, R_DEQUE = 2, R_SET = 3 };
+
+// what a configuration asks of the history generator
+enum { MODE_NORMAL = 0, MODE_BIG_PRIMES = 1 };
 
 // The public interface of Matrix<Options> as the checks use it.  Indices are the ones of the instantiation's indexing scheme.
 struct MatrixIO {
   virtual ~MatrixIO() {}
   virtual void construct_default(unsigned p) = 0;                                  // Matrix() [+ set_characteristic]
   virtual void construct_hint(unsigned ncols, unsigned p, bool characteristic_later) = 0;
-  virtual void construct_batch(const std::vector<SCol>& boundaries, unsigned p) = 0;
-  // insert_boundary; returns the size of the returned vector when the overload returns one (returned = true)
-  virtual size_t insert(const MC& cell, bool implicit_id, bool omit_dim, bool& returned) = 0;
+  virtual void construct_batch(const std::vector<SCol>& boundaries, unsigned p) = 0;   // coefficients as given (MC::in)
+  // insert_boundary of cell.in as a range of kind range_kind (R_VECTOR when the adapter has no other);
+  // returns the size of the returned vector when the overload returns one (returned = true)
+  virtual size_t insert(const MC& cell, bool implicit_id, bool omit_dim, int range_kind, bool& returned) = 0;
   virtual void remove_last() = 0;
   virtual unsigned ncols() = 0;
   virtual int col_dim(unsigned idx) = 0;
@@ -59,7 +68,7 @@ struct MatrixIO {
 };
 
 // runs one case (history + all checks) on the matrix behind io; defined in c05_core.cpp
-void run_history(vh::Case& c, const char* cfg, const Traits& t, MatrixIO& io);
+void run_history(vh::Case& c, const char* cfg, const Traits& t, MatrixIO& io, int mode = MODE_NORMAL);
 
 }  // namespace c05
 #endif
